@@ -1,6 +1,7 @@
 import QcelVerif.Model.Fragments
 import QcelVerif.Model.Formula
 import QcelVerif.Model.FormulaRe
+import QcelVerif.Model.FragmentsSrc
 import QcelVerif.Lib.Proto
 /-! Line-protocol driver for the C15 models.
 
@@ -8,6 +9,10 @@ import QcelVerif.Lib.Proto
   ne|atoms|real|frags|fc|fm|c|m                  electrons of a molecule, total and per fragment
   nre|zeff,..|sel(a,b,.. | N)|n|d(0,1) d(0,2) ...  upper-triangle distances (rationals), row-major
   fs|order|sym,sym,..        of|order|formula        gm|order|chgmult|c|m|sym,sym,..
+
+source-derived twins (the bodies regenerated from molecule.py / molecular_formula.py in Gen/FragmentsSrc.lean, run by the AST
+evaluator; same arguments, same answer format as the hand-model line):
+  sgf|...  sne|...  snre|...  sfs|...      an evaluator failure ("Python raises") of get_fragment is `err src`
 
 the two regexes of order_molecular_formula, hand model AND generic engine on the AST generated from the source (text as hex
 of ASCII bytes; strings in answers are s<hex>):
@@ -63,6 +68,32 @@ def showMol (mol : Mol (Nat × Int)) : String :=
   s!"{showNatList (mol.atoms.map (·.1))}|{showBits mol.real}|{showFrags mol.frags}|{showIntList mol.fc}|{showIntList mol.fm}|{mol.c}|{mol.m}|{showNel mol}"
 
 def parseOrd? (s : String) : Option Order := parseOrder s
+
+/-! source-derived twins -/
+
+def showNelSrc (mol : Mol (Nat × Int)) : String :=
+  let one (k : Option Nat) : String :=
+    match FragSrc.srcNelectrons (·.2) mol k with
+    | some v => toString v
+    | none => "X"
+  let per := (List.range mol.frags.length).map (fun k => one (some k))
+  s!"{one none}|{",".intercalate per}"
+
+def showMolSrc (mol : Mol (Nat × Int)) : String :=
+  s!"{showNatList (mol.atoms.map (·.1))}|{showBits mol.real}|{showFrags mol.frags}|{showIntList mol.fc}|{showIntList mol.fm}|{mol.c}|{mol.m}|{showNelSrc mol}"
+
+def stepGfSrc (mol : Mol (Nat × Int)) (r gh : List Nat) (g : Bool) : String :=
+  match FragSrc.srcExtract mol r gh g with
+  | none => "err src"
+  | some k =>
+    match k.toCtor mol with
+    | none => "err src-arrays"
+    | some c =>
+      if c.atoms.isEmpty then showErr .empty
+      else
+        match construct (·.2) c with
+        | .ok o => "ok " ++ showMolSrc o
+        | .error e => showErr e
 
 /-- upper-triangle list → distance function -/
 def triDist (n : Nat) (d : List Rat) (i j : Nat) : Rat :=
@@ -139,6 +170,36 @@ def stepC15 (line : String) : String :=
       | .ok o => "ok " ++ showMol o
       | .error e => showErr e
     | _, _, _, _ => "bad-op"
+  | ["sgf", g, r, gh, at_, rl, fr, fc, fm, c, m] =>
+    match parseBits? g, parseNatList? r ',', parseNatList? gh ',', parseMol? at_ rl fr fc fm c m with
+    | some [g], some r, some gh, some mol => stepGfSrc mol r gh g
+    | _, _, _, _ => "bad-op"
+  | ["sne", at_, rl, fr, fc, fm, c, m] =>
+    match parseMol? at_ rl fr fc fm c m with
+    | some mol => "ok " ++ showNelSrc mol
+    | none => "bad-op"
+  | ["snre", z, sel, n, d] =>
+    match parseIntList? z ',', parseOptList? (parseNatList? · ',') sel, parseNat? n,
+        (splitNonEmpty d ' ').mapM parseRat? with
+    | some z, some sel, some n, some d =>
+      if z.length != n || d.length != n * (n - 1) / 2 then "bad-op"
+      else
+        -- the line carries Z*real per atom and the atom list of one fragment: atomic_numbers := z, real := all true,
+        -- fragments := [sel], ifr := 0 (or None when the whole molecule is meant)
+        let r : Option Rat := match sel with
+          | some fr => FragSrc.srcNre n z (List.replicate n true) [fr] (triDist n d) (some 0)
+          | none => FragSrc.srcNre n z (List.replicate n true) [] (triDist n d) none
+        match r with
+        | some v => "ok " ++ showRat v
+        | none => "err src"
+    | _, _, _, _ => "bad-op"
+  | ["sfs", o, syms] =>
+    match parseOrd? o with
+    | some ord =>
+      match FragSrc.srcFromSymbols (if syms == "" then [] else splitOnChar syms ',') ord with
+      | some s => "ok " ++ s
+      | none => "err other:ValueError"
+    | none => "err other:ValueError"
   | ["ne", at_, rl, fr, fc, fm, c, m] =>
     match parseMol? at_ rl fr fc fm c m with
     | some mol => "ok " ++ showNel mol
